@@ -12,7 +12,7 @@ NOTE = ("Trusted base: go/types + go/packages (loading /repo's current working t
 
 # id -> (technique, level text, design section) ; absent ids go to not_applicable
 CLAIMED = {
- "C02": ("static analysis: finite-domain decision tables of the three item comparators and the id comparators (SSA interpreter), comparator role table over all resolved call sites (value-origin analysis), guard-dominance on result/effect pairing in Put2/GetNode/DeleteNode",
+ "C02": ("static analysis: finite-domain decision tables of the three item comparators and the id comparators (SSA interpreter), comparator role table over all resolved call sites (value-origin analysis), must-precede rule that every key operation searches the store with a fresh probe, guard-dominance on result/effect pairing in Put2/GetNode/DeleteNode",
          "Necessary structural conditions of the set semantics decided on every call site and path; not an equivalence proof against a reference set.", "DESIGN.md §2 C02"),
  "C08": ("static analysis: who-may-write + check-then-act rule on Snapshot.refCount (every write classified), guard-dominance on the decrement's own result, must-follow release pairing of iterator/snapshot references incl. the snapClosed idiom",
          "The structural cause of the Open/Close race (conditional increment not being one atomic step) and the release pairing are decided on all paths; schedules are not explored.", "DESIGN.md §2 C08"),
@@ -30,7 +30,7 @@ CLAIMED = {
          "Necessary structural conditions of precise/complete collection on all paths; counts/bytes equality is not decided.", "DESIGN.md §2 C06"),
  "C10": ("static analysis: comparator-origin rule and sign decision table for the shard end test, shard start/end pivot indices, error-collection dataflow, worker/producer channel shape, iterator reference pairing",
          "Boundary agreement, error collection and termination shape decided on all paths of Visitor and its workers.", "DESIGN.md §2 C10"),
- "C19": ("static analysis: sibling codec agreement (byte-order object, widths, slice bounds, CRC operands extracted from writer and reader SSA and compared), defer-order rule for checksum sampling vs. Close, structural matching of the KV helpers",
+ "C19": ("static analysis: sibling codec agreement (byte-order object, widths, slice bounds, CRC operands extracted from writer and reader SSA and compared), defer-order rule for checksum sampling vs. Close, structural matching of the KV helpers, terminator-on-every-path and reader-error-unchanged rules, per-stream state rule (private scratch buffer, open flags)",
          "Writer/reader mirror-image conditions decided structurally, including the never-tested v0 branch and KV helpers.", "DESIGN.md §2 C19"),
  "C04": ("static analysis: barrier-bracket rule propagated over the VTA call graph (Acquire dominates / Release deferred or post-dominates every structure access; frozen table of caller-holds-the-barrier entry points), freshness/ordering rules for Refresh and GetNode results, who-may-free context table, guard-dominance for the overtaken insert and the winner-only flush",
          "The lexical discipline that makes the epoch scheme sound is decided on all paths and call sites; use-after-free over schedules is not.", "DESIGN.md §2 C04"),
@@ -40,11 +40,11 @@ CLAIMED = {
          "Linearizability is NOT decided; decided are the algorithm's local obligations, each a necessary condition with a small-thread counter-example, including the node implementation for other architectures that the baseline never compiles.", "DESIGN.md §2 C13"),
  "C14": ("static analysis: sibling accounting signatures (counter, sign, level index, Size operand) extracted from Insert4/Segment.Add/helpDelete and compared, who-may-update counter table, field exhaustiveness of Stats.Merge/Apply over types.Struct, owner table for goroutine-local statistics, layout/constant agreement with types.Sizes (33 node types, header, buffers)",
          "Accounting and layout halves of the property decided structurally; the heap's chain invariants are not.", "DESIGN.md §2 C14"),
- "C16": ("static analysis: lockset rule (mutex / try-lock ownership of plain fields), must-precede ordering in FlushSession, guard-dominance on the atomic add's own result in Release/Acquire, ordered-destruction guard in doCleanup",
+ "C16": ("static analysis: lockset rule (mutex / try-lock ownership of plain fields), must-precede ordering in FlushSession, guard-dominance on the atomic add's own result in Release/Acquire, ordered-destruction guard in doCleanup, destructor-only-under-try-lock path rule, type agreement of the close-number counters, range rule for the flush offset constant",
          "Necessary conditions of barrier safety decided on every path; the interleaving argument itself is not.", "DESIGN.md §2 C16"),
- "C17": ("static analysis: lost-wakeup shape rule (try-lock hand-off must re-examine the queue after dropping the flag, and loop back), cleanup scan shape",
+ "C17": ("static analysis: lost-wakeup shape rule (try-lock hand-off must re-examine the queue after dropping the flag, and loop back), cleanup scan shape, increment/Release pairing in Acquire, cursor installed-or-closed pairing, counter type agreement",
          "The structural cause of pending sessions at quiescence is decided; liveness over schedules is not.", "DESIGN.md §2 C17"),
- "C18": ("static analysis: heap reset/initialisation ordering in MergeIterator, pop/advance/re-push pairing, per-level chaining guards and loop bounds in Segment.Add/Assemble, allocator origin",
+ "C18": ("static analysis: heap reset/initialisation ordering in MergeIterator, pop/advance/re-push pairing, per-level chaining guards and loop bounds in Segment.Add/Assemble, allocator origin, exact link-set decision table of Builder.Assemble (SSA interpreter with an element memory model over 64 segment-height scenarios)",
          "Structural conditions of lossless, ordered assembly and merging; content equality is not decided.", "DESIGN.md §2 C18"),
  "C01": ("static analysis: finite-domain decision-table extraction of the visibility predicates (SSA interpreter over epoch orderings), guard-dominance on the collector hand-off, freshness/who-may-write analysis of item headers and payloads, must-precede ordering in NewSnapshot",
          "Necessary structural conditions of snapshot isolation decided on every path and call site of the resolved program (SSA + must-facts + VTA call graph). Not a proof of isolation over all schedules.", "DESIGN.md §2 C01"),
